@@ -31,6 +31,9 @@ CLAIMS = {
     "C08": ("other", "4.C08", "skeleton vs transcribed specification tables + abstract interpretation of format_token / PAE",
             "Decides agreement of the implementation's skeleton (PAE lists, nonce derivation, key split constants, layout, primitives by type) with tables transcribed from the specification; byte-exactness of primitives is trusted.",
             "trusted: primitives are byte-exact; the transcription in rules/protocol.py"),
+    "C09": ("proof", "4.C09", "path-sensitive abstract interpretation (affine / interval length domain) of the consumers' MIR with a panic-site inventory",
+            "Every panic-capable site reachable from untrusted text (MIR asserts, indexing, split_at, copy_from_slice, from_slice, unwrap/expect, assert_eq!, explicit panics) is an obligation discharged from dominating guards and type-level lengths on every path; unknown external callees are findings. All obligations must be discharged.",
+            "trusted: SAFE table of dependency functions (do not panic); blake2 / hmac / chacha key-length contracts; lengths <= isize::MAX"),
     "C10": ("other", "4.C10", "provenance terms: fresh CSPRNG draw per build, whole buffer, all bytes on the wire",
             "Decides freshness by construction; the statistical statement over histories of an OS CSPRNG is not decidable statically.",
             "trusted: ring SystemRandom is a CSPRNG"),
